@@ -4,6 +4,7 @@ import (
 	"fmt"
 	"go/ast"
 	"go/token"
+	"go/types"
 	"strings"
 
 	"siotcheck/kit"
@@ -59,10 +60,21 @@ func c18Range(c *kit.Ctx, m *mbModel, r *kit.Rule) {
 				}
 				return true
 			})
-			if len(calls) != 1 || len(calls[0].Args) < 1 {
+			// the access may sit in a function literal handed to the serving
+			// function: `write(i, addr)` with write bound to
+			// `func(i, a int) error { … provider.W(a, …) }`
+			var accessArg ast.Expr
+			if len(calls) == 1 && len(calls[0].Args) >= 1 {
+				accessArg = calls[0].Args[0]
+			}
+			if len(calls) == 0 {
+				accessArg = m.closureAccess(arm, f, fs.Body)
+			}
+			if accessArg == nil {
 				symbolic = fmt.Sprintf("%d provider calls in the loop", len(calls))
 				return
 			}
+			accessAt := ast.Node(accessArg)
 			a, b, op, ok := kit.CmpAtom(fs.Cond)
 			if fs.Cond == nil || !ok || op != token.LSS {
 				symbolic = "loop condition is not `i < bound`"
@@ -127,7 +139,7 @@ func c18Range(c *kit.Ctx, m *mbModel, r *kit.Rule) {
 			it := bnd.Term(a)
 			c0 := linAt(initRhs, fs.Init)
 			B := linAt(b, fs.Cond)
-			arg := linAt(calls[0].Args[0], calls[0])
+			arg := linAt(accessArg, accessAt)
 			at := linAt(addrLhs, fs.Cond)
 			qt := linAt(q.lhs, fs.Cond)
 			if it == nil || c0 == nil || B == nil || arg == nil || at == nil || qt == nil {
@@ -232,4 +244,105 @@ func c18Range(c *kit.Ctx, m *mbModel, r *kit.Rule) {
 			o.Undecided("the addressed range cannot be shown for all requests (%s) although %d critical requests behave correctly", symbolic, len(reqs))
 		}
 	}
+}
+
+// closureAccess: the loop body calls exactly one function-typed parameter of
+// f; the arm passes a literal for it; the literal makes exactly one provider
+// call whose address argument is one of the literal's parameters.  Returns the
+// argument of the loop's call that becomes that address.
+func (m *mbModel) closureAccess(arm *mbArm, f *kit.Func, body ast.Node) ast.Expr {
+	info := f.Info()
+	params := f.Params()
+	var viaCall *ast.CallExpr
+	pidx := -1
+	n := 0
+	ast.Inspect(body, func(x ast.Node) bool {
+		call, ok := x.(*ast.CallExpr)
+		if !ok {
+			return true
+		}
+		id, ok := ast.Unparen(call.Fun).(*ast.Ident)
+		if !ok {
+			return true
+		}
+		o := kit.ObjOf(info, id)
+		for i, p := range params {
+			if types.Object(p) == o {
+				if _, isFn := p.Type().Underlying().(*types.Signature); isFn {
+					viaCall, pidx = call, i
+					n++
+				}
+			}
+		}
+		return true
+	})
+	if n != 1 {
+		return nil
+	}
+	// the literal the arm passes
+	var lit *ast.FuncLit
+	nl := 0
+	ast.Inspect(arm.Clause, func(x ast.Node) bool {
+		call, ok := x.(*ast.CallExpr)
+		if !ok || m.Req.CalleeFunc(call) != f || pidx >= len(call.Args) {
+			return true
+		}
+		if l, ok := ast.Unparen(call.Args[pidx]).(*ast.FuncLit); ok {
+			lit = l
+			nl++
+		}
+		return true
+	})
+	if nl != 1 {
+		return nil
+	}
+	linfo := m.Req.Info()
+	var lparams []types.Object
+	for _, fl := range lit.Type.Params.List {
+		for _, nm := range fl.Names {
+			lparams = append(lparams, linfo.Defs[nm])
+		}
+	}
+	argIdx := -1
+	np := 0
+	ast.Inspect(lit.Body, func(x ast.Node) bool {
+		call, ok := x.(*ast.CallExpr)
+		if !ok {
+			return true
+		}
+		if _, _, isP := m.providerCall(m.Req, call); isP && len(call.Args) >= 1 {
+			np++
+			o := kit.ObjOf(linfo, call.Args[0])
+			for i, lp := range lparams {
+				if lp != nil && lp == o {
+					argIdx = i
+				}
+			}
+		}
+		return true
+	})
+	if np != 1 || argIdx < 0 || argIdx >= len(viaCall.Args) {
+		return nil
+	}
+	changed := false
+	ast.Inspect(lit.Body, func(x ast.Node) bool {
+		switch y := x.(type) {
+		case *ast.AssignStmt:
+			for _, l := range y.Lhs {
+				if kit.ObjOf(linfo, l) == lparams[argIdx] {
+					changed = true
+				}
+			}
+		case *ast.IncDecStmt:
+			if kit.ObjOf(linfo, y.X) == lparams[argIdx] {
+				changed = true
+			}
+		}
+		return true
+	})
+	if changed {
+		return nil
+	}
+	// the literal must not change that parameter before the access: it is a plain parameter use
+	return viaCall.Args[argIdx]
 }
